@@ -67,7 +67,7 @@ pub fn golden_history(ps: u64, num_pages: usize) -> History {
         t3.push(Op::Delete { h: 0, k: lit(format!("key{:04}", i)) });
     }
     let tx = |ops: Vec<Op>| TxScript { ops, end: End::Commit, reopen: false };
-    History { pagesize: ps, num_pages, strict: false, populate: false, txs: vec![tx(t1), tx(t2), tx(t3)], origin: format!("golden history at page size {}", ps) }
+    History { pagesize: ps, num_pages, strict: false, populate: false, txs: vec![tx(t1), tx(t2), tx(t3)], origin: format!("golden history at page size {}", ps), pins: vec![] }
 }
 
 pub fn follow_ups(extra: usize, ps: u64) -> Vec<TxScript> {
@@ -185,7 +185,7 @@ fn sweep_wrong_sizes(ctx: &Ctx, shard: &mut Shard, path: &Path, bytes: &[u8], ps
         if other == ps {
             continue;
         }
-        let ho = History { pagesize: other, num_pages: 8, strict: false, populate: false, txs: vec![], origin: String::new() };
+        let ho = History { pagesize: other, num_pages: 8, strict: false, populate: false, txs: vec![], origin: String::new(), pins: vec![] };
         let r = util::catch(|| exec::open_db(path, &ho).map(|db| db.pagesize()));
         let accepted = matches!(&r, Ok(Ok(_)));
         let replay = serde_json::json!({"kind": "wrong-pagesize", "file": what, "pagesize": ps, "opened_with": other});
@@ -260,7 +260,7 @@ fn check_file_with(ctx: &Ctx, shard: &mut Shard, st: &mut St, golden: &Path, ps:
     // 1. open with the current code and read everything
     let path = scratch.fresh("golden");
     std::fs::write(&path, &bytes).expect("copy golden file");
-    let h = History { pagesize: ps, num_pages: 32, strict: false, populate: false, txs: vec![], origin: label.clone() };
+    let h = History { pagesize: ps, num_pages: 32, strict: false, populate: false, txs: vec![], origin: label.clone(), pins: vec![] };
     let r = util::catch(|| -> Result<(), (String, String)> {
         let db = exec::open_db(&path, &h).map_err(|e| ("golden:open-fails".to_string(), format!("[{}] open: {}", label, e)))?;
         {
